@@ -127,6 +127,16 @@ def run(prop, tier, seed):
         # extra: interactive entry with a very long run of rejected answers before the accepted ones
         for fl in ([], ["-2"], ["-3"], ["-4"]):
             items.append({"args": [esc(a) for a in fl], "stdin": [esc(a) for a in ["junk"] * 1300 + (UNIVERSAL * 40)[:400]]})
+        # extra: interactive entry where every accepted answer is preceded by answers that are no legal value of anything (fields and
+        # chunks of vectors, several colons, pattern / format characters, look-alike letters, control characters, very long lines)
+        for fl in ([], ["-2"], ["-3"], ["-4"], ["-a"], ["-4", "-a", "-n"], ["-2", "-a", "-j"], ["-3", "-a"]):
+            for rep in range(1 if not big else 6):
+                wild = corpus.wild_answers(rnd, 400)
+                good = (UNIVERSAL * 40)[:400]
+                mix = []
+                for k_, g_ in enumerate(good):
+                    mix += [wild[(k_ * 3 + j_) % len(wild)] for j_ in range(rnd.choice([0, 1, 1, 2, 3]))] + [g_]
+                items.append({"args": [esc(a) for a in fl], "stdin": [esc(a) for a in mix]})
         # extra: valid vectors of every version under every single version flag with and without -j
         for _ in range(150 if not big else 4000):
             ver = rnd.choice("234")
